@@ -72,7 +72,14 @@ def scenario(cls, rng, n_ops, uid_len=None):
                 # Offending Element, Error ID, ...): the model's `put` inserts it at its place
                 kw, e, vr = rng.choice([x for x in EXTRA_ELEMENTS if x[0] not in cls.command_fields])
             val, term = gen_value(vr, rng, uid_len)
-            setattr(msg.command_set, kw, val)
+            cur = getattr(msg.command_set, kw, None) if vr == 'AT' else None
+            if vr == 'AT' and hasattr(cur, 'append') and len(cur) >= 1 and rng.random() < 0.6:
+                # the multi-valued element is changed IN PLACE (list methods on the live value), not re-assigned
+                del cur[:]
+                for v in val:
+                    cur.append(v)
+            else:
+                setattr(msg.command_set, kw, val)
             ops_terms.append('(SetField %d %s)' % (e, term))
             human.append('set %s=%r' % (kw, val))
         elif r < 0.75:
